@@ -277,6 +277,10 @@ def run(ctx):
     from .C12 import getstate_value_rule as _gvr
     _gvr(ctx, prog, "C13.5")
     ctx.floor("C13.5", 8)
+    # ---- C13.6 a resumed run does not rewind the random streams (shared with C14.2)
+    from .C14 import seed_once_rule as _sor
+    _sor(ctx, "C13.6")
+    ctx.floor("C13.6", 1)
     ctx.assumptions += [
         "a Python-level signal handler runs between bytecodes of the main thread, i.e. at (or inside) statement boundaries; boundaries inside C extensions are not finer than the statement that calls them",
         "the resumed loop restarts at the top of consume_sample (it re-reads live_points[0])",
